@@ -746,13 +746,18 @@ impl FsCommand {
                 target,
                 use_rename,
             } => {
+                // The directories are created first, as `execute` does. The source is removed
+                // only after it has been copied, and a copy that cannot replace the source
+                // is removed again.
+                let dir = target.parent().map_or(target, |dir| dir.as_ref()).quote();
                 let source = source.path.quote();
                 let target = target.quote();
                 if *use_rename {
-                    result.push(format!("mv {} {}", &source, &target));
+                    result.push(format!("mkdir -p {dir} && mv -n {source} {target}"));
                 } else {
-                    result.push(format!("cp {} {}", &source, &target));
-                    result.push(format!("rm {}", &source));
+                    result.push(format!(
+                        "if mkdir -p {dir} && cp {source} {target}; then rm {source} || rm {target}; else rm -f {target}; fi"
+                    ));
                 }
             }
         }
